@@ -16,6 +16,18 @@ pub trait Enc: Sample + Copy {
     fn scale2(self, k: i32) -> Self;
     /// a + b in the format's own arithmetic
     fn plus(self, o: Self) -> Self;
+    /// sample spec -> value where sums of several values must stay in range (`sinc_lin`, `sinc_clin`): the same as
+    /// `dec` except for the 32-bit formats, whose small-integer specs n become n * 2^14 + a 14-bit pattern that is a
+    /// multiple of 8 (|value| < 2^26, more significant bits than an f32 holds, exactly divisible by 2^k for k >= -3)
+    fn dec_lin(v: &Value) -> Self {
+        Self::dec(v)
+    }
+}
+fn lin32(n: i64) -> i64 {
+    if n == 0 {
+        return 0;
+    }
+    n.clamp(-4000, 4000) * 16384 + (((n.wrapping_mul(0x9E37_79B1) >> 7) & 0x3FF8) | 8)
 }
 impl Enc for f64 {
     const FMT: &'static str = "f64";
@@ -83,6 +95,7 @@ impl Enc for i32 {
     }
     fn dec(v: &Value) -> i32 {
         match v.as_i64() {
+            Some(0) => 0,
             Some(n) => {
                 // |n| < 2047: n * 2^20 plus odd low bits (all 31 value bits in use)
                 let low = ((n.wrapping_mul(0x9E37_79B1) >> 7) & 0xF_FFFF) | 1;
@@ -101,7 +114,72 @@ impl Enc for i32 {
     fn plus(self, o: i32) -> i32 {
         self + o
     }
+    fn dec_lin(v: &Value) -> i32 {
+        match v.as_i64() {
+            Some(n) => lin32(n) as i32,
+            None => unbig(v) as i32,
+        }
+    }
 }
+
+// round 4b: the narrow and the unsigned integer formats.  A small-integer sample spec n (i16 units) is the
+// *amplitude* (distance from equilibrium): i8 n / 256, u8 the same + 128, u16 n + 32768, u32 the i32 value + 2^31.
+// `plus` / `scale2` act on amplitudes (what "a + b" and "2^k a" mean for a format whose equilibrium is not 0).
+impl Enc for i8 {
+    const FMT: &'static str = "i8";
+    fn enc(self) -> Value {
+        big(self as i128)
+    }
+    fn dec(v: &Value) -> i8 {
+        match v.as_i64() {
+            Some(n) => (n / 256).clamp(-128, 127) as i8,
+            None => unbig(v) as i8,
+        }
+    }
+    fn scale2(self, k: i32) -> i8 {
+        if k >= 0 {
+            self << k
+        } else {
+            self >> (-k)
+        }
+    }
+    fn plus(self, o: i8) -> i8 {
+        self + o
+    }
+}
+macro_rules! enc_unsigned {
+    ($U:ty, $S:ty, $fmt:expr, $half:expr) => {
+        impl Enc for $U {
+            const FMT: &'static str = $fmt;
+            fn enc(self) -> Value {
+                big(self as i128)
+            }
+            fn dec(v: &Value) -> $U {
+                match v.as_i64() {
+                    Some(_) => (<$S as Enc>::dec(v) as i64 + $half) as $U,
+                    None => unbig(v) as $U,
+                }
+            }
+            fn scale2(self, k: i32) -> $U {
+                let a = self as i64 - $half;
+                let a = if k >= 0 { a << k } else { a >> (-k) };
+                <$U>::try_from(a + $half).expect("scaled amplitude out of range")
+            }
+            fn plus(self, o: $U) -> $U {
+                <$U>::try_from((self as i64 - $half) + (o as i64 - $half) + $half).expect("amplitude sum out of range")
+            }
+            fn dec_lin(v: &Value) -> $U {
+                match v.as_i64() {
+                    Some(_) => (<$S as Enc>::dec_lin(v) as i64 + $half) as $U,
+                    None => unbig(v) as $U,
+                }
+            }
+        }
+    };
+}
+enc_unsigned!(u8, i8, "u8", 128i64);
+enc_unsigned!(u16, i16, "u16", 32768i64);
+enc_unsigned!(u32, i32, "u32", 2147483648i64);
 
 pub fn enc_frame<F: Frame>(f: F) -> Value
 where
@@ -116,6 +194,14 @@ where
     let a = v.as_array().expect("frame spec = array of samples");
     assert_eq!(a.len(), F::CHANNELS, "channel count");
     F::from_fn(|c| <F::Sample as Enc>::dec(&a[c]))
+}
+pub fn dec_frame_lin<F: Frame>(v: &Value) -> F
+where
+    F::Sample: Enc,
+{
+    let a = v.as_array().expect("frame spec = array of samples");
+    assert_eq!(a.len(), F::CHANNELS, "channel count");
+    F::from_fn(|c| <F::Sample as Enc>::dec_lin(&a[c]))
 }
 pub fn enc_frames<F: Frame>(fs: &[F]) -> Value
 where
